@@ -53,6 +53,13 @@ def gen_cases(tier, seed):
                     drops = range(nemit) if (tier == "thorough" or (cks == "crc32" and not disp)) else ()
                     for k in drops:
                         cases.append({"cfg": cfg, "side": side, "round": r, "wrong": False, "drop": k})
+    # the same cancel points on handlers which already went through another transaction
+    for mode, closure, prior in itertools.product(("ack", "unack"), (False, True), ("completed", "cancelled_S", "cancelled_D")):
+        cfg = base(mode, closure, True, "crc32", 13)
+        rounds, nemit = clean_shape(tuple(sorted(cfg.items())))
+        for side in ("S", "D"):
+            for r in range(0, rounds + 2):
+                cases.append({"cfg": cfg, "side": side, "round": r, "wrong": False, "drop": None, "prior": prior})
     for mode, closure in itertools.product(("ack", "unack"), (False, True)):
         cfg = base(mode, closure, False, "crc32", 0)
         cfg["metadata_only"] = True
@@ -107,13 +114,31 @@ def run_case(case):
                     viol.append({"clause": "incomplete-file-deletion-differs-from-disposition", "present": present, "disp": cfg["disp"], "fin": ev["fin"]})
 
         w.log.observers.append(ob)
+        mark_idx = 0
         try:
+            if case.get("prior"):
+                # the handlers already went through a transaction (completed, or cancelled by either side) before the one that is judged
+                pacts = {} if case["prior"] == "completed" else {2: [("cancel", "S" if case["prior"] == "cancelled_S" else "D")]}
+                pr = Runner(w, actions=pacts, max_expiries=30, max_rounds=2000)
+                w.put()
+                pr.run()
+                for ep in (w.S, w.D):
+                    if ep.h.state.name != "IDLE":
+                        ep.reset()
+                        ep.drain()
+                    ep.outbox.clear()
+                md_seen["v"] = False
+                complete_at_rx.clear()
+                obs.clear()
+                viol.clear()
+                mark_idx = len(w.log.events)
+                obs["judged_on_reused_handlers"] = 1
             w.put()
             outcome = r.run()
         except InternalError as e:
             outcome = "internal-error"
             viol.append({"clause": "api-call-raised", "side": e.side, "etype": type(e.exc).__name__, "msg": str(e.exc)[:150]})
-        evs = w.log.events
+        evs = w.log.events[mark_idx:]
         act = next((e for e in evs if e["kind"] == "action" and e["what"] == "cancel"), None)
         if act is None:
             obs["cancel_not_reached"] = 1
@@ -225,4 +250,4 @@ def exhaustive(tier):
 
 
 REQUIRED = {"sender_cancels": 50, "receiver_cancels": 50, "eof_cancel_checked": 30, "eof_cancel_mid_file": 5, "eof_cancel_completion_checked": 20,
-            "receiver_cancel_finished_pdu_checked": 20, "file_deletions_expected": 5, "file_presence_judged": 20}
+            "receiver_cancel_finished_pdu_checked": 20, "file_deletions_expected": 5, "file_presence_judged": 20, "judged_on_reused_handlers": 100}
